@@ -128,9 +128,10 @@ def rnd(tier, configs, nvecs=2, profiles=None):
 
 def c01(tier):
     if tier == "quick":
-        return [dict(model="elem", configs=cfgs(["heap8d", "heap3n", "heap0d"], (R,)) + cfgs(["heap160"], (D,))),
+        return [dict(model="elem", configs=cfgs(["heap8d", "heap3n", "heap0d", "heap8sy"], (R,)) + cfgs(["heap160"], (D,))),
                 dict(model="shift", configs=cfgs(LAYOUTS_Q, (R,))), rnd(tier, ["heap8d", "heap12d"])]
-    return [dict(model="elem", configs=cfgs(["heap8d", "heap3n", "heap160", "heap0d", "heap12d", "heap1n"], (R, D))),
+    return [dict(model="elem", configs=cfgs(["heap8d", "heap3n", "heap160", "heap0d", "heap12d", "heap1n"], (R, D))
+                 + cfgs(["heap8s", "heap8y", "heap8sy", "heap8c", "heap8cs", "heap8cy", "heap8css", "stack8sy", "fence8d"], (R,))),
             dict(model="shift", configs=cfgs(LAYOUTS_T, (R, D))), rnd(tier, ["heap8d", "heap24d", "heap12d", "heap160", "fence8d", "heap0d"], nvecs=3)]
 
 def c02(tier):
@@ -150,8 +151,8 @@ def c03(tier):
         return [dict(model="elem", configs=cfgs(["heap8d", "heap0d"], (R,))), dict(model="range", configs=cfgs(["heap8d", "heap0d"], (R,))),
                 dict(model="xchg", configs=cfgs(["heap8d", "heap0d"], (R,))), dict(model="shift", configs=cfgs(["heap0d", "heap12d", "heap1n"], (R,))),
                 rnd(tier, ["heap8d"], nvecs=3)]
-    return [dict(model="elem", configs=cfgs(["heap8d", "heap160", "heap0d", "heap3n"], (R, D))),
-            dict(model="range", configs=cfgs(["heap8d", "heap160", "heap0d"], (R, D))),
+    return [dict(model="elem", configs=cfgs(["heap8d", "heap160", "heap0d", "heap3n"], (R, D)) + cfgs(["heap8sy", "heap8cs", "heap8cy", "heap8css"], (R,))),
+            dict(model="range", configs=cfgs(["heap8d", "heap160", "heap0d"], (R, D)) + cfgs(["heap8sy", "heap8css"], (R,))),
             dict(model="xchg", configs=cfgs(["heap8d", "heap160", "heap0d"], (R, D))), rnd(tier, ["heap8d", "heap160", "heap0d", "fence24d"], nvecs=3)]
 def c07(tier):
     if tier == "quick":
